@@ -74,7 +74,8 @@ Inductive tcase :=
 | DC (name display : string) (hashes : list string) (rec_ : record) (name' display' : string) (hashes' : list string)
 | SC (before rec_ after : record)
 | HC (ops : list op) (static ports slaves ports' slaves' : list string)
-| LC (name : string) (stored before after : list string).     (* permanently offline slave: slave_ports ids, remote ids before / after *)
+| LC (name : string) (stored before after : list string)
+| GC (name : string) (stored : list string).     (* permanently offline slave: slave_ports ids, remote ids before / after; GC: a deleted slave *)
 
 Definition mk_port id defs init cur last hlt w b i : port :=
   {| p_id := id; p_defs := defs; p_init := init; p_attrs := map canon_attr cur; p_value := last; p_hlt := hlt;
@@ -130,6 +131,7 @@ Definition ok_model (c : tcase) : bool :=
       && str_list_eqb (h_live (restart h)) ports' && str_list_eqb (h_slaves (restart h)) slaves'
       && str_list_eqb (st_vports h) (h_vports h) && str_list_eqb (st_slaves h) (h_slaves h)
   | LC name stored _ after => str_list_eqb (load_ports name stored) after
+  | GC _ _ => true
   end.
 
 Definition ok_spec (c : tcase) : bool :=
@@ -141,6 +143,7 @@ Definition ok_spec (c : tcase) : bool :=
   | SC before _ after => same_rec (norm_slave_rec before) (norm_slave_rec after)
   | HC ops static ports slaves ports' slaves' => str_list_eqb ports ports' && str_list_eqb slaves slaves'
   | LC _ _ before after => str_list_eqb before after
+  | GC name stored => match load_ports name stored with [] => true | _ => false end      (* a deleted slave: no record would be reloaded *)
   end.
 
 Definition bad_model (cases : list tcase) : list nat := mismatches ok_model cases 0.
